@@ -6,8 +6,10 @@
    indices into the catalogue of dovetails = every unordered pair of segment
    ends (hairpins = both ends the same end, self-links, links between two
    segments) followed by two "twin" entries (a second, parallel dovetail
-   between ends that already carry one; only selectable together with the
-   original).  The profile fixes names, sequences, lengths and overlaps:
+   between ends that already carry one, with another overlap; only selectable
+   together with the original) and, for every pair, identical twins (a second
+   and a third dovetail with the same overlap; GFA2 only, anonymous E lines).
+   The profile fixes names, sequences, lengths and overlaps:
      1  letters, every segment with a sequence, overlaps 1M / 2M
      2  letters, segment 2 without sequence (and, in GFA1, without length),
         segment 1 with an explicit LN, overlaps `*` and 1M mixed
@@ -31,7 +33,14 @@ vars == <<prof, sel>>
 Profiles == {1, 2, 3, 4, 5}
 LetterNames == <<"A", "B", "C", "D">>
 DigitNames  == <<"1", "2", "3", "4">>
-SeqCat == << <<"A", "A", "C", "G", "T">>, <<"C", "C", "G", "A">>, <<"G", "T", "T", "A">>, <<"T", "C", "A">> >>
+\* sequences over the whole IUPAC alphabet in both cases: every code occurs in one of the first
+\* three segments, each of which is traversed backwards in some enumerated chain
+SeqCat == << <<"A", "a", "D", "H", "C", "g", "T", "r", "Y", "k">>,
+             <<"d", "h", "B", "v", "M", "m", "S", "w", "N", "c">>,
+             <<"G", "t", "b", "V", "R", "y", "K", "W", "s", "n">>,
+             <<"H", "d", "M", "a", "C">> >>
+ASSUME ComplementLaw
+ASSUME UNION {Rng(SeqCat[i]) : i \in 1..3} = DOMAIN ComplUpper \cup DOMAIN ComplLower
 
 NameOf(p, i) == IF p = 3 THEN DigitNames[i] ELSE LetterNames[i]
 \* [name, seq, len (always known: GFA2 needs it), ln = 1 when GFA1 text carries LN]
@@ -50,8 +59,16 @@ PairsFrom(i, j) == IF i > NE THEN <<>>
                    ELSE <<[a |-> i, b |-> j, twin |-> 0]>> \o PairsFrom(i, j + 1)
 Plain == PairsFrom(1, 1)
 Twins == <<[a |-> 2, b |-> 3, twin |-> 1], [a |-> 1, b |-> 2, twin |-> 1]>>
-Cat == Plain \o Twins
+\* identical twins: a second (twin = 2) and a third (twin = 3) dovetail with the same ends AND the
+\* same overlap as a selected one.  GFA1 refuses a repeated link; GFA2 admits any number of
+\* anonymous E lines with the same content, so these graphs are written as GFA2 only, all edges `*`.
+Ident(t) == [r \in DOMAIN Plain |-> [a |-> Plain[r].a, b |-> Plain[r].b, twin |-> t]]
+Cat == Plain \o Twins \o Ident(2) \o Ident(3)
 OrigOf(q) == CHOOSE r \in DOMAIN Plain : Plain[r].a = Cat[q].a /\ Plain[r].b = Cat[q].b
+\* the entry that must be selected before q: the plain one, for a third dovetail the second one
+NeedsOf(q) == IF Cat[q].twin = 3 THEN CHOOSE r \in DOMAIN Cat : Cat[r].twin = 2 /\ Cat[r].a = Cat[q].a /\ Cat[r].b = Cat[q].b
+              ELSE OrigOf(q)
+IdentProfiles == {1, 2, 3}      \* (profiles whose overlaps are `*` or kM: writable as GFA2)
 
 Op(n, c) == [n |-> n, c |-> c]
 KM(k) == IF k < 0 THEN <<>> ELSE <<Op(k, "M")>>
@@ -59,8 +76,10 @@ Rich == << <<Op(1, "=")>>, <<Op(2, "=")>>, <<Op(1, "M"), Op(1, "=")>>, <<Op(1, "
            <<Op(1, "M"), Op(1, "M")>>, <<Op(0, "M"), Op(2, "M")>>, <<Op(0, "M"), Op(1, "=")>>, <<Op(2, "M")>> >>
 Mism == << <<Op(1, "X")>>, <<Op(1, "=")>>, <<Op(1, "M"), Op(1, "X")>>, <<Op(2, "M")>>, <<Op(1, "="), Op(1, "X")>> >>
 \* the CIGAR of the q-th catalogue entry, written from its first end to its second
+RECURSIVE OvOf(_, _)
 OvOf(p, q) ==
   IF Cat[q].twin = 1 THEN KM(3)
+  ELSE IF Cat[q].twin >= 2 THEN OvOf(p, OrigOf(q))
   ELSE CASE p = 1 -> KM(1 + (q % 2))
          [] p = 2 -> IF q % 3 = 0 THEN KM(-1) ELSE KM(1)
          [] p = 3 -> IF q % 2 = 0 THEN KM(2) ELSE KM(-1)
@@ -84,7 +103,8 @@ Init == prof \in Profiles /\ sel = <<>>
 Next == /\ Len(sel) < MaxLinks
         /\ \E q \in DOMAIN Cat :
              /\ (IF sel = <<>> THEN TRUE ELSE q > sel[Len(sel)])
-             /\ Cat[q].twin = 1 => \E k \in DOMAIN sel : sel[k] = OrigOf(q)
+             /\ Cat[q].twin >= 1 => \E k \in DOMAIN sel : sel[k] = NeedsOf(q)
+             /\ Cat[q].twin >= 2 => prof \in IdentProfiles
              /\ sel' = Append(sel, q)
         /\ UNCHANGED prof
 Spec == Init /\ [][Next]_vars
@@ -93,7 +113,8 @@ Emit == PrintT(<<"CASE", prof,
                  [i \in 1..NSeg |-> LET r == SegRec(prof, i) IN <<r.name, r.seq, r.len, r.ln>>],
                  [k \in DOMAIN sel |-> LET r == LinkRec(prof, sel[k]) IN
                                        <<r.e1[1], r.e1[2], r.e2[1], r.e2[2],
-                                         [j \in DOMAIN r.ov |-> <<r.ov[j].n, r.ov[j].c>>]>>]>>)
+                                         [j \in DOMAIN r.ov |-> <<r.ov[j].n, r.ov[j].c>>],
+                                         <<>>, Cat[sel[k]].twin>>]>>)
 
 -----------------------------------------------------------------------------
 Laws(G) == /\ ChainsWellFormed(G)
